@@ -10,16 +10,33 @@ use pdf::file::{FileOptions, NoCache};
 use pdf::object::{PagesNode, Ref, Resolve};
 use serde_json::{json, Value};
 
-/// document realising `deps`: object k is a /Pages node whose /Parent is its (single) eager dependency
-pub fn build(deps: &[Vec<u64>]) -> Vec<u8> {
+/// document realising `deps`: object k is a /Pages node whose /Parent is its (single) eager typed dependency; a dependency
+/// on a *direct* key g is an ExtGState given by reference in the node's resources (`/Resources << /ExtGState << /G g 0 R >> >>`):
+/// decoded in place, after the parent, through Resolve::with_loading
+pub fn build(deps: &[Vec<u64>]) -> Vec<u8> { build_direct(deps, &[]) }
+pub fn direct_of(case: &Value) -> Vec<bool> {
+    case["direct"].as_array().map(|a| a.iter().map(|x| x.as_bool().unwrap_or(false)).collect()).unwrap_or_default()
+}
+pub fn build_direct(deps: &[Vec<u64>], direct: &[bool]) -> Vec<u8> {
     let n = deps.len() as u64;
+    let is_direct = |k: u64| direct.get(k as usize - 1).copied().unwrap_or(false);
     let mut d = Doc::new(b"");
     let mut e: Vec<(u64, XEntry)> = vec![(0, XEntry::Free { next: 0, gen: 65535 })];
     for (i, ds) in deps.iter().enumerate() {
         let k = i as u64 + 1;
-        assert!(ds.len() <= 1, "only graphs with at most one eager dependency per key are realisable");
-        let parent = ds.first().map(|p| format!(" /Parent {} 0 R", p)).unwrap_or_default();
-        let o = d.obj(k, 0, format!("<< /Type /Pages /Kids [] /Count 0{} >>", parent).as_bytes());
+        if is_direct(k) {
+            assert!(ds.is_empty(), "direct keys are leaves");
+            let o = d.obj(k, 0, b"<< /Type /ExtGState /LW 1 >>");
+            e.push((k, XEntry::InUse { off: o, gen: 0 }));
+            continue;
+        }
+        let typed: Vec<u64> = ds.iter().copied().filter(|&x| !is_direct(x)).collect();
+        let dir: Vec<u64> = ds.iter().copied().filter(|&x| is_direct(x)).collect();
+        assert!(typed.len() <= 1 && dir.len() <= 1, "only graphs with at most one typed and one direct dependency per key are realisable");
+        assert!(dir.is_empty() || ds.last() == dir.first(), "the direct dependency is decoded after the parent");
+        let parent = typed.first().map(|p| format!(" /Parent {} 0 R", p)).unwrap_or_default();
+        let res = dir.first().map(|g| format!(" /Resources << /ExtGState << /G {} 0 R >> >>", g)).unwrap_or_default();
+        let o = d.obj(k, 0, format!("<< /Type /Pages /Kids [] /Count 0{}{} >>", parent, res).as_bytes());
         e.push((k, XEntry::InUse { off: o, gen: 0 }));
     }
     let o = d.obj(n + 1, 0, &catalog_body(n + 2));
@@ -71,7 +88,7 @@ pub fn run(cases_path: &str, report_path: &str, _opts: &[String]) {
         let shared = case["shared"].as_bool().unwrap();
         let cache_on = case["cacheOn"].as_bool().unwrap();
         let nt = loads.len();
-        let bytes = build(&deps);
+        let bytes = build_direct(&deps, &direct_of(case));
         let mut fail = |rep: &mut Report, class: String, extra: Value| {
             let mut d = json!({"case_index": ci, "case": case});
             for (k, v) in extra.as_object().unwrap() { d[k] = v.clone(); }
